@@ -68,6 +68,10 @@ static const scen_t scenarios[] = {
    "snapshot/release churn x readers x writer"},
   {"D11", "B1", 4, "P0.1 F P1.1", "", {"t", "P0.2 P1.2 F", "t"}, 0,
    "iterators created and walked while a flush replaces the memtable and retires files"},
+  {"D12", "B1", 4, "P0.1 F P1.1 F P0.1", "", {"P0.2 B[P0.1,P1.1]", "K", "P1.2 F"}, 0,
+   "ldb_backup concurrent with a batch writer and with a writer that forces a flush/compaction"},
+  {"D13", "B1,reuse=1", 4, "P0.2 P1.2 P0.2", "", {"B[P0.1,P1.1] B[D0,D1]", "K", "P0.2"}, 0,
+   "ldb_backup while the memtable is being switched and flushed in the background"},
   {"D2b", "B1", 4, "", "", {"B[P0.1,P1.1]", "B[D0,D1]", "t t"}, 0,
    "batch writer + batch deleter + iterator scanner (both keys or none)"},
 };
@@ -123,7 +127,7 @@ parse_prog(int t, const char *s) {
     } else if (*s == 'g') { o->kind = 'g'; o->k1 = s[1] - '0'; s += 2; }
     else if (*s == 'n') { o->kind = 'n'; o->k1 = s[1] - '0'; o->k2 = s[2] - '0'; s += 3; }
     else if (*s == 'R') { o->kind = 'R'; o->k1 = s[1] - '0'; s += 2; }
-    else if (strchr("tCFyx", *s)) { o->kind = *s; s++; }
+    else if (strchr("tCFyxK", *s)) { o->kind = *s; s++; }
     else vh_die("bad op '%c' in scenario", *s);
     nprog[t]++;
   }
@@ -273,6 +277,16 @@ thread_body(void *arg) {
         r->ret = sch_event();
         break;
       }
+      case 'K': {
+        /* backup taken concurrently: read back by thread 0 after the join; it must equal the
+         * database at ONE point inside this call (every batch wholly in or out) */
+        char bak[64];
+        snprintf(bak, sizeof(bak), "/vfs/bak%d", t);
+        r->inv = sch_event();
+        r->status = ldb_backup(gdb, bak);
+        r->ret = sch_event();
+        break;
+      }
     }
     nrecs[t] = j + 1;
   }
@@ -304,6 +318,26 @@ exec_body(void *arg) {
     tids[t] = sch_spawn(thread_body, (void *)(long)t);
   for (t = 0; t < nthr_fg; t++)
     sch_join(tids[t]);
+  /* read every backup back through an independent handle */
+  for (t = 0; t < nthr_fg; t++)
+    for (i = 0; i < nrecs[t]; i++)
+      if (recs[t][i].kind == 'K' && recs[t][i].status == LDB_OK) {
+        khist_t b;
+        char bak[64];
+        int bst;
+        snprintf(bak, sizeof(bak), "/vfs/bak%d", t);
+        kh_init(&b, &cfg, bak);
+        if (kh_open(&b) != LDB_OK) {
+          snprintf(exec_err, sizeof(exec_err), "the backup taken by thread %d does not open (status %d)", t, b.open_status);
+        } else {
+          ldb_iter_t *bi = ldb_iterator(b.db, NULL);
+          do_scan(MAXTHR, bi, recs[t][i].vids, &bst);
+          ldb_iter_destroy(bi);
+          if (bst != LDB_OK)
+            snprintf(exec_err, sizeof(exec_err), "scan of the backup taken by thread %d ends with status %d", t, bst);
+        }
+        kh_clear(&b);
+      }
   /* final state */
   it = ldb_iterator(gdb, NULL);
   do_scan(MAXTHR, it, final_vids, &st);
@@ -339,6 +373,7 @@ lin_apply(const oprec_t *o, kmodel_t *m) {
     case 'g': return o->vids[0] == m->vid[o->k1];
     case 'n': return o->vids[0] == m->vid[o->k1] && o->vids[1] == m->vid[o->k2];
     case 't':
+    case 'K':
     case 'Z':
       for (k = 0; k < kv_nkeys; k++)
         if (o->vids[k] != m->vid[k]) return 0;
@@ -389,7 +424,7 @@ check_linearizable(char *err, size_t en) {
           snprintf(err, en, "thread %d op %d (%c) observed bytes/keys that no write produced", t, j, o->kind);
           return 0;
         }
-      if (strchr("Wgnt", o->kind))
+      if (strchr("WgntK", o->kind))
         L.ops[L.n++] = o;
     }
   memset(&fin, 0, sizeof(fin));
